@@ -141,6 +141,19 @@ def rex_match(it, rexes, x):
     return SBool(z3.Or(*parts)) if parts else False
 
 
+@specfn
+def members_are_values(it, lst, col):
+    """every element of the list is a non-null value of the column"""
+    from pyvc.ops import values_equal as veq
+    z = col.z
+    lst = it.lift_list(lst)
+    k, i = it.bound_var('mk'), it.bound_var('mi')
+    return SBool(z3.ForAll([k], z3.Implies(
+        z3.And(k >= 0, k < lst.n),
+        z3.Exists([i], z3.And(i >= 0, i < z['N'], z3.Not(z['null'](i)),
+                              zbool(veq(it, lst.get(k), z['wrap'](z['val'](i)))))))))
+
+
 def _static(v):
     return v.pytype if isinstance(v, Sym) else type(v)
 
@@ -222,7 +235,7 @@ PRIMS = {
     'whole': whole, 'rex_match': rex_match, 'is_datev': is_datev,
     'is_numv': is_numv, 'is_strv': is_strv, 'is_boolv': is_boolv,
     'implies': implies, 'iff': iff, 'called': called, 'call_args': call_args,
-    'hook_args_ok': hook_args_ok,
+    'hook_args_ok': hook_args_ok, 'members_are_values': members_are_values,
     'datetime': extract.ModuleRef('datetime'),
 }
 
